@@ -864,6 +864,14 @@ func c01Curated() []c01Case {
 					add(n, t, map[int]c01Script{1: {c01P3S: B(f3, 2), c01P7: B(f7, 0)}, 2: {c01P4: B("acc-drop", 0), c01P10: B("p10-reveal-operating", 1)}})
 				}
 			}
+			// collusion: A gets itself disqualified where no reconstruction is
+			// due (phase 5: it never enters QUAL; phase 9: its public key share
+			// points are already part of the group key) and B reveals its
+			// genuine key for A in phase 10
+			add(n, t, map[int]c01Script{1: {c01P4: B("acc-false", 3)}, 2: {c01P10: B("p10-reveal-operating", 1)}})
+			add(n, t, map[int]c01Script{1: {c01P4: B("acc-index-above", 0)}, 2: {c01P10: B("p10-reveal-operating", 1)}})
+			add(n, t, map[int]c01Script{1: {c01P8: B("acc-false", 3)}, 2: {c01P10: B("p10-reveal-operating", 1)}})
+			add(n, t, map[int]c01Script{1: {c01P8: B("acc-index-zero", 0)}, 2: {c01P10: B("p10-reveal-operating", 1)}})
 			add(n, t, map[int]c01Script{n: {c01P3S: B("p3-shares-wrong", 1), c01P7: B("p7-points-partial", 0, 2, 3)}, 1: {c01P4: B("acc-drop", 0), c01P8: B("acc-drop", 0)}})
 			add(n, t, map[int]c01Script{n: {c01P3S: B("p3-shares-wrong", 1), c01P7: B("silent", 0)}, 1: {c01P4: B("acc-drop", 0), c01P10: B("p10-reveal-wrong-key", 0)}})
 			add(n, t, map[int]c01Script{2: {c01P3S: B("p3-conflict-bad-first", 1), c01P7: B("silent", 0)}, 1: {c01P4: B("acc-drop", 0)}})
@@ -922,6 +930,18 @@ func c01Cases(r *verifkit.Run) []c01Case {
 			cfg = configs[rng.Intn(3)]
 		}
 		cases = append(cases, c01RandomCase(rng, cfg[0], cfg[1]))
+	}
+	// replay of one recorded case (bin/vcheck --replay): only that case runs
+	if want := r.Replay(); want != "" {
+		var only []c01Case
+		for _, c := range cases {
+			if c.String() == want {
+				only = append(only, c)
+			}
+		}
+		if len(only) > 0 {
+			return only
+		}
 	}
 	return cases
 }
@@ -1116,6 +1136,16 @@ func TestVerif_C02_Shares(t *testing.T) {
 		}
 		fin, _ := c01HonestResults(o)
 		class := c01FaultClass(c)
+		if os.Getenv("VERIF_DEBUG") != "" && r.Replay() != "" {
+			for _, m := range o.members {
+				if m.result != nil {
+					kb, _ := m.result.GroupPublicKeyBytes()
+					t.Logf("C02DBG m%d corrupt=%v IA=%s DQ=%s key=%s", m.idx, m.corrupt, c01Set(m.result.Group.InactiveMemberIndexes()), c01Set(m.result.Group.DisqualifiedMemberIndexes()), verifkit.Hex(kb[:6]))
+				} else {
+					t.Logf("C02DBG m%d corrupt=%v err=%v at %s", m.idx, m.corrupt, m.err, m.errAt)
+				}
+			}
+		}
 		if len(fin) == 0 {
 			r.Case(desc, false)
 			return
